@@ -1,4 +1,78 @@
-From Coq Require Import List NArith.
-From QV Require Import Mpool.Model.
-Theorem placeholder : True. Proof. exact I. Qed.
-Print Assumptions placeholder.
+(* C14 — memory pools hand out disjoint, aligned, reusable blocks.  Obligations (statements in full; proofs in Mpool/). *)
+From Coq Require Import List NArith Permutation.
+From QV Require Import Mpool.Model Mpool.ProofsSize Mpool.Proofs Mpool.ProofsAddr Mpool.Examples.
+Import ListNotations.
+Local Open Scope N_scope.
+
+(* size arithmetic of qt_mpool_create_aligned, for ALL requested sizes, alignments, limits, page sizes *)
+Theorem size_rounding : forall pagesize env_max max0 item_req align_req s,
+  pagesize <> 0 ->
+  create_sizes pagesize env_max max0 item_req align_req = Some s ->
+  item_req <= s_item s /\ HDRSZ <= s_item s /\ s_item s mod s_align s = 0 /\
+  (16 <= s_align s /\ align_req <= s_align s /\ (s_align s = 16 \/ s_align s = align_req)) /\
+  2 <= s_ipa s /\ s_ipa s * s_item s <= s_alloc s /\ s_item s * 2 <= s_max s.
+Proof. exact size_rounding_all. Qed.
+Print Assumptions size_rounding.
+
+Theorem create_never_out_of_fuel : forall pagesize env_max max0 item_req align_req,
+  pagesize <> 0 -> pagesize < 2 ^ 64 ->
+  create_sizes pagesize env_max max0 item_req align_req <> None.
+Proof. exact create_sizes_total. Qed.
+Print Assumptions create_never_out_of_fuel.
+
+(* every history of (thread, alloc | free x) in which clients free only what they hold, once *)
+Theorem cache_wf : forall s h p L, 2 <= s_ipa s ->
+  run (pool_of_sizes s) [] h = Ok p L ->
+  batches (N.to_nat (p_ipa p)) (p_reuse p) /\
+  forall t, cache_ok (p_ipa p) (get_cache t (p_caches p)).
+Proof. exact cache_wf_all. Qed.
+Print Assumptions cache_wf.
+
+Theorem never_stuck : forall s h, 2 <= s_ipa s -> run (pool_of_sizes s) [] h <> Stuck.
+Proof. exact never_stuck_all. Qed.
+Print Assumptions never_stuck.
+
+(* free items (shared batches, cache lists, uncarved slab tails) and live items partition the slabs' items *)
+Theorem live_partition : forall s h p L, 2 <= s_ipa s ->
+  run (pool_of_sizes s) [] h = Ok p L ->
+  Permutation (free_items p ++ L) (all_items (p_ipa p) (p_nslabs p)).
+Proof. exact live_partition_all. Qed.
+Print Assumptions live_partition.
+
+Theorem alloc_fresh : forall s h p L t, 2 <= s_ipa s ->
+  run (pool_of_sizes s) [] h = Ok p L ->
+  exists p' x, alloc p t = (p', RItem x) /\ ~ In x L /\ NoDup (x :: L).
+Proof. exact alloc_fresh_all. Qed.
+Print Assumptions alloc_fresh.
+
+(* the property at address level: for every creation request and every history, live blocks are pairwise
+   disjoint ranges of the REQUESTED size, inside their slab, aligned, and the next alloc (by any thread)
+   returns a block nobody holds.  Slab bases are what the aligned allocator returned (trusted disjoint/aligned). *)
+Theorem live_disjoint : forall (base : N -> N) pagesize env_max max0 item_req align_req s h p L,
+  pagesize <> 0 ->
+  create_sizes pagesize env_max max0 item_req align_req = Some s ->
+  (forall k, base k mod s_align s = 0) ->
+  (forall k k', k <> k' -> base k + s_alloc s <= base k' \/ base k' + s_alloc s <= base k) ->
+  run (pool_of_sizes s) [] h = Ok p L ->
+  NoDup L /\
+  (forall x, In x L ->
+     addr base s x mod s_align s = 0 /\
+     base (fst x) <= addr base s x /\ addr base s x + item_req <= base (fst x) + s_alloc s) /\
+  (forall x y, In x L -> In y L -> x <> y ->
+     addr base s x + item_req <= addr base s y \/ addr base s y + item_req <= addr base s x) /\
+  (forall t, exists p' z, alloc p t = (p', RItem z) /\ ~ In z L).
+Proof. exact live_disjoint_all. Qed.
+Print Assumptions live_disjoint.
+
+(* a freed block may be handed out again: it is the next block the freeing thread gets *)
+Theorem freed_block_reusable : forall p t x p',
+  free p t x = (p', RUnit) -> exists p'', alloc p' t = (p'', RItem x).
+Proof. exact free_then_alloc. Qed.
+Print Assumptions freed_block_reusable.
+
+(* create / alloc / free / destroy on one pool leave every other pool's state untouched *)
+Theorem pools_independent : forall pagesize env w o k,
+  k <> pid_of o ->
+  get_pool k (w_pools (fst (world_step pagesize env w o))) = get_pool k (w_pools w).
+Proof. exact world_step_other. Qed.
+Print Assumptions pools_independent.
